@@ -502,4 +502,28 @@ theorem written_minimal (bs : Bytes) (n k : Nat) (h : readLen true bs = some (so
 example : readLen true [0x82, 0x00, 0x05] = some (some 5, 3) ∧ (lenOctets 5).length ≤ 3 := by
   decide
 
+
+/-! ### the written forms are self-delimiting (session 5) -/
+
+/-- C13 — the written length octets are self-delimiting: if the forms of two lengths below 2^32,
+each followed by anything, give the same octets, the lengths are equal and so is what follows
+(no written form is a proper prefix of another: a header can be cut off a stream unambiguously). -/
+theorem write_prefix_free (n k : Nat) (r s : Bytes) (hn : n < 2 ^ 32) (hk : k < 2 ^ 32)
+    (h : lenOctets n ++ r = lenOctets k ++ s) : n = k ∧ r = s := by
+  have a := read_write .der n r hn
+  have b := read_write .der k s hk
+  rw [h, b] at a
+  injection a with a
+  simp only [Prod.mk.injEq, Length.definite.injEq] at a
+  refine ⟨a.1.symm, ?_⟩
+  have := a.2
+  simpa [G.plain] using this.symm
+
+/-- distinct lengths are written differently -/
+theorem write_inj (n k : Nat) (hn : n < 2 ^ 32) (hk : k < 2 ^ 32)
+    (h : lenOctets n = lenOctets k) : n = k :=
+  (write_prefix_free n k [] [] hn hk (by rw [h])).1
+
+example : lenOctets 127 ++ [0x81, 0x80] ≠ lenOctets 128 ++ [0x7F] := by decide
+
 end Bcder.Props.C13
